@@ -163,6 +163,7 @@ func main() {
 		}
 	}
 	cfg.deadline = time.Now().Add(budget)
+	cfg.grace = budget / 4
 	scratch, err := os.MkdirTemp("", "verif.")
 	if err != nil {
 		fmt.Println("INCONCLUSIVE: cannot create scratch directory:", err)
